@@ -184,6 +184,12 @@ def classify(d):
             return 'roundtrip.name.case-changed'
         return 'roundtrip.name.changed'
     tail = where.rsplit('/', 1)[-1] or where
+    if tail not in KINDNAMES and tail not in (
+            'CIMDateTime', 'Char16', 'bool', 'int', 'float'):
+        # the last component is a name (a dictionary key): the mechanism is
+        # the innermost kind of object that holds it
+        kinds = [c for c in where.split('/') if c in KINDNAMES]
+        tail = (kinds[-1] if kinds else 'value') + '/<name>'
     return 'roundtrip.diff@%s' % tail
 
 
